@@ -24,7 +24,8 @@ META = dict(
         '1 geos) all 7^2 / 7 matrices with size ranges symbolic; P1/P2 with '
         'each constraint and 8 pairs symbolic over 5 eligibility tables '
         '(no control-eligible, no treatment-eligible, all fixed, ...); iroas '
-        'in {2.0, 0.0}; n_pretest_max and n_designs symbolic',
+        'in {2.0, 0.0} (with and without a budget range); n_pretest_max and '
+        'n_designs symbolic; shared / reused data-object histories',
         thorough='adds all 7^3 x {gratio, tsize, share, budget} symbolic, '
         'panels P3 P4 P8 P9 with seeded tables'),
     outside='panels concrete (listed family, each meeting the precondition: '
@@ -49,11 +50,12 @@ PAIRS = [('tsize', 'csize'), ('gratio', 'tsize'), ('gratio', 'budget'),
 
 
 def _mk(panel, m, sym, el, tag, conc=None, elig_fix=None, seed=0,
-        max_s=800):
+        max_s=800, history=None):
   name = '%s-%s-%s-%s' % (panel, m, '+'.join(sym) or 'none', tag)
   return dict(func='job', name=name, kwargs=dict(
       name=name, panel=panel, method=m, sym=list(sym), elig=el, conc=conc,
-      elig_fix=elig_fix, seed=seed, max_s=max_s, path_timeout=20))
+      elig_fix=elig_fix, seed=seed, max_s=max_s, path_timeout=20,
+      history=history))
 
 
 def jobs(tier, seed):
@@ -73,6 +75,11 @@ def jobs(tier, seed):
         out.append(_mk('P1', m, [s], el, 'e%d' % i))
       for pr in PAIRS:
         out.append(_mk('P1', m, pr, el, 'e%d' % i))
+      for s in (['tsize'], ['gratio'], ['k']):
+        out.append(_mk('P1', m, s, el, 'e%d-iroas0-nobudget' % i,
+                       conc=dict(iroas=0.0)))
+      for h in ('prior', 'interleave', 'second'):
+        out.append(_mk('P1', m, ['ngm'], el, 'e%d-%s' % (i, h), history=h))
       # zero iroas: budgets are infinite
       out.append(_mk('P1', m, ['budget'], el, 'e%d-iroas0' % i,
                      conc=dict(iroas=0.0)))
